@@ -419,8 +419,20 @@ theorem declared_in_bounding_box (geom : List (Atom Rat)) (cw : Option String) (
 averaged as a fresh `DoAverageBead` would average it under ITS OWN force field — the centre weight
 configured for one molecule never leaks into the next -/
 theorem run_system_no_leak (p : Proc) (mols : List (Option String × List (Bead Rat))) :
-    runSystemQ p mols = mols.map (fun mv => runMoleculeQ p.weight mv.1 p.ignoreMissing mv.2) :=
-  processor_stateless (K := ℚ) epsQ p mols
+    runSystemQ p mols = untilError (mols.map (fun mv => runMoleculeQ p.weight mv.1 p.ignoreMissing mv.2)) :=
+  congrArg untilError (processor_stateless (K := ℚ) epsQ p mols)
+
+/-- a system whose molecules all succeed: one outcome per molecule, in order -/
+theorem run_system_all_ok (p : Proc) (mols : List (Option String × List (Bead Rat)))
+    (h : ∀ mv ∈ mols, ∃ l, runMoleculeQ p.weight mv.1 p.ignoreMissing mv.2 = .ok l) :
+    runSystemQ p mols = mols.map (fun mv => runMoleculeQ p.weight mv.1 p.ignoreMissing mv.2) := by
+  rw [run_system_no_leak]
+  induction mols with
+  | nil => rfl
+  | cons mv r ih =>
+    obtain ⟨l, hl⟩ := h mv List.mem_cons_self
+    simp only [List.map_cons, hl, untilError]
+    rw [ih (fun x hx => h x (List.mem_cons_of_mem _ hx))]
 
 /-! ## witnesses (non-vacuity, and the re-weighting case) -/
 
